@@ -78,8 +78,6 @@ Definition ex_state : pool := Eval vm_compute in match run (init 1) ex_trace wit
 Example ex_wakeup : exists b, reachN 1 ex_state /\ In b ex_state.(blocks) /\ b.(b_waiters) = [] /\
   b.(b_stack) = [1%N] /\ nwok ex_state b.(b_id) = 1.
 Proof.
-  eexists. split.
-  { unfold ex_trace.
-    repeat (eapply reachN_step; [|exact I|]); [apply reachN_init| | | | |]; vm_compute; reflexivity. }
+  eexists. split; [apply (runN_reachN 1 ex_trace (init 1)); [apply reachN_init|vm_compute; reflexivity]|].
   split; [vm_compute; left; reflexivity|vm_compute; repeat split].
 Qed.
